@@ -421,6 +421,9 @@ def run_glue_sweep(case, agg):
             agg.ok(h8("c20g", case, v), f"ok:{via}")
 
 
+RULE += ". Further stages: " + 'field-sweep - every value 0..300 of one field (arity 1..4, 28 pre-release forms), neighbours in precedence order; glue-field-sweep - every value of one VERSION field (major 0..300, others 0..255)'
+
+
 def plan(tier):
     n4 = len(FIELD) ** 4
     return [
